@@ -919,4 +919,13 @@ theorem processes_deliver (n : Nat) (tab : Table) (named : List Cmd) (snt : Cmd)
     rw [if_neg (by simp; omega)]
     simp
 
+theorem processes_fpt1 (n : Nat) (tab : Table) (named : List Cmd) (snt : Cmd)
+    (ht : TableOk tab named snt) (hn : n = named.length) : ∀ (cs : List Byte) (s : St), DInv n s → s.fpt = 1 → s.ring = [] →
+    (cs.foldl (process tab) s).fpt = 1
+  | [], _, _, hf, _ => hf
+  | c :: cs, s, h, hf, _ => by
+    obtain ⟨a1, a2, a3, _⟩ := process_deliver n tab named snt s c ht hn h (by rw [hf]; decide)
+    simp only [List.foldl_cons]
+    exact processes_fpt1 n tab named snt ht hn cs _ a1 a3 a2
+
 end Librfn.Lemmas.ConsoleDeliver
